@@ -546,8 +546,18 @@ def r15(facts, res):
     b = bs[0]
     adds = [(bb, t) for bb, t in b.calls_named('add') if 'Itemset' in (cpath(t) or '') and len(t['args']) >= 4]
     if not adds:
-        return res.lost(R, 'no Itemset::add call in close')
-    ctx = b.op_root(adds[0][1]['args'][3])[0]
+        # the insertion written out (entry / or / insert): the scratch set is the Vob that is reset per item; it is used wherever it
+        # is handed over by shared reference
+        cands = {b.op_root(t['args'][0])[0] for bb, t in b.calls_named('set_all') if t['args'] and 'Vob' in b.lty(b.op_root(t['args'][0])[0] or 0)}
+        if len(cands) != 1:
+            return res.lost(R, 'no Itemset::add call in close and no single scratch set that is reset')
+        ctx0 = list(cands)[0]
+        adds = [(bb, t) for bb, t in b.calls() if any(i > 0 and op_local(a) is not None and b.op_root(a)[0] == ctx0 for i, a in enumerate(t['args']))]
+        if not adds:
+            return res.lost(R, 'the scratch look-ahead set of close is never handed on')
+        ctx = ctx0
+    else:
+        ctx = b.op_root(adds[0][1]['args'][3])[0]
     if ctx is None or 'Vob' not in b.lty(ctx):
         return res.lost(R, 'cannot identify the scratch look-ahead set of close')
     loops = b.loops()
